@@ -19,7 +19,7 @@ ASSUMPTIONS = ['"accepted before the call" is decided on harness dispatch record
 def families(tier):
     deep = tier == 'thorough'
     out = []
-    cfg = dict(bound=3 if deep else 2, cap=40000 if deep else 1500, window=0.35, max_targets=2)
+    cfg = dict(bound=3 if deep else 2, cap=40000 if deep else 1500, window=0.7, max_targets=3)
     pshapes = {
         'pause': ([('pause',)], {}), 'ret': ([('ret', 1)], {}), 'raise': ([('pause',), ('raise', 'ValueError')], {}),
         'c_ff': ([('disp', 'A', 'C', 'ff')], {}), 'c_aw': ([('disp', 'A', 'C', 'await')], {}), 'c_ff_B': ([('disp', 'B', 'C', 'ff'), ('pause',)], {}),
